@@ -71,6 +71,7 @@ func hashTag(st *State, v Val) string {
 }
 
 func checkC12(p *Prog, rp *Report) {
+	defer stateRule(p, rp, "C12-STATE", p.Func("hashio", "GetHash"), p.Func("hashio", "NewHasher"), p.Method("hashio", "Hasher", "Write"), p.Method("hashio", "Hasher", "Sum"), p.Func("hashio", "NewHasherWriter"), p.Func("hashio", "NewHasherWriters"), p.Func("hashio", "NewHasherReader"), p.Func("hashio", "NewHasherReaders"), p.Method("control", "FileHash", "Verifier"), p.Func("control", "FileHashFromHasher"))
 	rp.Explanation = "C12-ALG: hashio.GetHash interpreted abstractly maps md5/sha1/sha256/sha512 to a FRESH crypto/md5|sha1|sha256|sha512.New() and every other name to an error. C12-VERIFIER: FileHash.Verifier picks the constructor of the entry's own Algorithm for every algorithm name and every hash length, returns the hex decoding error, and reaches no log.Fatal/os.Exit/panic. C12-FIELDTYPE: every Files / Checksums-* struct field has the element type whose UnmarshalControl tags entries with that field's algorithm. C12-COUNT: Hasher.Write forwards the slice unchanged, adds the returned count to size, returns the hash's results; Size/Sum/Name return the fields; NewHasher wires name and GetHash(name). C12-FANOUT: the four constructors return one hasher per requested name in order, all of them plus the target in the MultiWriter (writers) or the target as TeeReader source (readers); an unknown name yields an error and nothing else. C12-CLOSE: verifier.Write forwards; the first Close fails iff !bytes.Equal(h.Sum(nil), want); FileHashFromHasher copies Name(), hex of Sum(nil), Size(). C12-BEST: Checksums() preference table. (The hash oracle's digest changes with every write, so a digest taken in mid-stream cannot stand in for a later one; the recorded hash is also tried in upper-case hex.)"
 	rp.NotDecided = "the digest implementations and hash.Hash's independence of chunking (standard library); io.MultiWriter / io.TeeReader pass bytes through unchanged (standard library)."
 	rp.Trusted = []string{"go/types, go/ssa", "crypto/md5, sha1, sha256, sha512; hash.Hash", "io.MultiWriter, io.TeeReader, bytes.Equal, encoding/hex"}
